@@ -5,6 +5,7 @@ long verif_in_v;
 int verif_exited;
 int verif_fatal_calls;
 int verif_out_calls;
+int verif_fatal_forbidden;     /* set by a harness while the fatal path must not be taken */
 
 #ifdef REPLAY
 #include <stdio.h>
